@@ -370,6 +370,9 @@ func runExec(args []string) {
 				wait += 1000
 			}
 			time.Sleep(time.Duration(wait) * time.Millisecond)
+			if os.Getenv("VERIF_DEBUG_MS") != "" {
+				fmt.Fprintf(os.Stderr, "A %d: asked at %d, now %d\n", want, now.UnixMilli()%100000, time.Now().UnixMilli()%100000)
+			}
 			fmt.Fprintf(out, "%s\n", line)
 		case "X":
 			// "@now+N" arguments are replaced by the decimal unix time + N (the echoed line carries the substituted value)
